@@ -23,6 +23,7 @@ from .srcmodel import Model, strip_docstring
 from .units import UnitTables, const_fold
 
 MAX_STATES = 600
+_VERSION = [0]
 MAX_DEPTH = 14
 
 
@@ -307,17 +308,24 @@ def static_truth(g: G):
 
 # ------------------------------------------------------------------------------------------ state
 class State:
-    __slots__ = ('guards', 'env', 'heap', 'effects', 'notes')
+    __slots__ = ('guards', 'env', 'heap', 'effects', 'notes', 'vers')
 
-    def __init__(self, guards=(), env=None, heap=None, effects=(), notes=()):
+    def __init__(self, guards=(), env=None, heap=None, effects=(), notes=(), vers=None):
         self.guards = tuple(guards)
         self.env = dict(env or {})
         self.heap = dict(heap or {})
         self.effects = tuple(effects)
         self.notes = tuple(notes)
+        self.vers = dict(vers or {})     # (object path, mangled field) -> version of the unknown value
 
     def copy(self):
-        return State(self.guards, self.env, self.heap, self.effects, self.notes)
+        return State(self.guards, self.env, self.heap, self.effects, self.notes, self.vers)
+
+    def bump(self, path, field):
+        """the field may have been written by code that is not tracked: later reads see a new unknown"""
+        _VERSION[0] += 1
+        self.vers[(path, field)] = _VERSION[0]
+        self.heap.pop((path, field), None)
 
     def with_guard(self, g: G):
         """None if infeasible (contradicts an earlier guard)"""
@@ -1110,6 +1118,9 @@ class SX:
                 return [(st, Unk(f'{owner}.{attr}'))]
             ty = self.field_type(owner, mangled)
             name = f'{obj.path}.{self.canon_field(cls or owner, mangled)}'
+            ver = st.vers.get((obj.path, mangled))
+            if ver:
+                name += f'#{ver}'
             if ty is None:
                 pub = self.field_public().get(mangled)
                 if pub:
